@@ -47,6 +47,12 @@ func c10Env(fn *ssa.Function, recv bool) *fw.PolyEnv {
 				if x.Op == token.REM && c10IsInt(x.Type()) {
 					env.Subst[x] = c10Rem(env.Of(x.X), env.Of(x.Y))
 				}
+				// x >> k is x / 2^k for the non-negative positions and counts the display arithmetic handles
+				if x.Op == token.SHR && c10IsInt(x.Type()) {
+					if k, ok := c10ConstInt(x.Y); ok && k >= 0 && k < 62 {
+						env.Subst[x] = c10QuoAtom(env.Of(x.X), fw.PConst(1<<uint(k)))
+					}
+				}
 			case *ssa.Phi:
 				// loop counters get a clean atom (the engine's phi atoms depend on evaluation order)
 				if c10IsInt(x.Type()) {
@@ -363,7 +369,7 @@ func c10CollectBinOps(v ssa.Value, op token.Token) []*ssa.BinOp {
 		if !ok {
 			return
 		}
-		if b.Op == op {
+		if b.Op == op || (op == token.QUO && c10Divisor(nil, b) != nil) {
 			out = append(out, b)
 			return
 		}
@@ -621,4 +627,95 @@ func c10ExtractOf(c *ssa.Call, idx int) ssa.Value {
 		}
 	}
 	return nil
+}
+
+// c10Divisor returns the divisor of an integer quotient b: Y of x / Y, 2^k of x >> k (constant k);
+// nil if b is neither. env may be nil when only the shape is asked for.
+func c10Divisor(env *fw.PolyEnv, b *ssa.BinOp) *fw.Poly {
+	if b == nil || !c10IsInt(b.Type()) {
+		return nil
+	}
+	switch b.Op {
+	case token.QUO:
+		if env == nil {
+			return fw.PConst(0)
+		}
+		return env.Of(b.Y)
+	case token.SHR:
+		if k, ok := c10ConstInt(b.Y); ok && k >= 0 && k < 62 {
+			return fw.PConst(1 << uint(k))
+		}
+	}
+	return nil
+}
+
+// c10ExactInRange: the guard known at b is equivalent to q = (P < 0) either literally (c10Exact) or
+// as (P != 0) together with a dominating bound P <= 0 (the form `last := i == n-1; if !last` inside
+// a loop that keeps i < n).
+func c10ExactInRange(env *fw.PolyEnv, b *ssa.BasicBlock, q fw.Cmp) bool {
+	if c10Exact(env, b, q) {
+		return true
+	}
+	if q.Rel != fw.LT {
+		return false
+	}
+	ne, le := false, false
+	for _, f := range c10Facts(env, b) {
+		if f.Rel == fw.NE && f.Implies(fw.Cmp{P: q.P, Rel: fw.NE}) {
+			ne = true
+		}
+		if f.Implies(fw.Cmp{P: q.P, Rel: fw.LE}) {
+			le = true
+		}
+	}
+	return ne && le
+}
+
+// c10StripWidening removes integer conversions that cannot lose value bits (and interface/type changes).
+func c10StripWidening(v ssa.Value) ssa.Value {
+	size := func(t types.Type, asTarget bool) (int, bool, bool) {
+		b, ok := t.Underlying().(*types.Basic)
+		if !ok || b.Info()&types.IsInteger == 0 {
+			return 0, false, false
+		}
+		uns := b.Info()&types.IsUnsigned != 0
+		switch b.Kind() {
+		case types.Int8, types.Uint8:
+			return 8, uns, true
+		case types.Int16, types.Uint16:
+			return 16, uns, true
+		case types.Int32, types.Uint32:
+			return 32, uns, true
+		case types.Int64, types.Uint64:
+			return 64, uns, true
+		default: // int, uint, uintptr: 32 or 64 depending on the architecture
+			if asTarget {
+				return 32, uns, true
+			}
+			return 64, uns, true
+		}
+	}
+	for {
+		switch x := v.(type) {
+		case *ssa.Convert:
+			ts, tu, ok1 := size(x.Type(), true)
+			ss, su, ok2 := size(x.X.Type(), false)
+			if !ok1 || !ok2 {
+				return v
+			}
+			if (tu == su && ts >= ss) || (su && !tu && ts > ss) {
+				v = x.X
+				continue
+			}
+			return v
+		case *ssa.ChangeType:
+			v = x.X
+		case *ssa.ChangeInterface:
+			v = x.X
+		case *ssa.MakeInterface:
+			v = x.X
+		default:
+			return v
+		}
+	}
 }
